@@ -6,7 +6,7 @@ import ast
 import re
 
 from . import rule
-from ..model import Unresolved, walk_scope, parent, enclosing_function, enclosing_class, qualname
+from ..model import Unresolved, walk_scope, parent, enclosing_function, enclosing_class, qualname, ancestors as ancestors_of
 from ..paths import U
 from ..taint import TaintEngine, SRC
 from .. import q
@@ -269,3 +269,43 @@ def r3(rr, repo):
         rr.ob(f'{fname}: the kept tail starts at the "@"', toks[8][2] == 'g2', mod, st, key=f'tail|{fname}')
         # replacement keeps groups 1 and 2 only, mask in between
         rr.ob(f'{fname}: the replacement is <group 1><mask><group 2>', repl is not None and re.fullmatch(r'\\g<1>\*+\\g<2>', repl) is not None, mod, call, witness=str(repl), key=f'repl|{fname}')
+
+
+@rule('C15.R4', "cutting a source / output text at its delimiters never cuts inside the credential: a piece split off at '!', ';' or ',' that still belongs to the URI (the password may contain the delimiter) "
+                "is re-attached before the address is used, otherwise the part before the delimiter ('scheme://user:pass-prefix', no '@' left for the mask to anchor on) and the rest ('...@host') travel on unmasked")
+def r4(rr, repo):
+    fmod = repo.module(F)
+    umod = repo.module(UTL)
+    table = [(fmod, repo.find(f'{F}::Filter.parse_options')[1], '!'), (fmod, repo.find(f'{F}::Filter.parse_topics')[1], ';'), (umod, repo.find(f'{UTL}::split_commas_maybe')[1], ',')]
+    for mod, fn, delim in table:
+        params = q.func_params(fn)
+        splits = [c for c in q.calls_in(fn) if isinstance(c.func, ast.Attribute) and c.func.attr == 'split' and c.args and q.const_str(c.args[0]) and c.args[0].value == delim and U(c.func.value) in params]
+        if not splits:
+            rr.unresolved(f'{fn.name}: no split of the parameter at {delim!r} found', mod, fn, key=f'splitter|{fn.name}')
+            continue
+        # a re-attachment step: a loop over the split-off pieces that joins some of them back onto the first piece with the same delimiter
+        joins = [c for c in q.calls_in(fn) if isinstance(c.func, ast.Attribute) and c.func.attr == 'join' and q.const_str(c.func.value) and c.func.value.value == delim and
+                 any(isinstance(a, (ast.For, ast.While)) for a in ancestors_of(c))]
+        if not joins:
+            rr.violated(f"{fn.name} cuts its argument at every {delim!r} and never puts a piece back: a credential whose password contains {delim!r} is cut in two, neither half matches the masks",
+                        mod, splits[0], witness=U(splits[0])[:100], key=f'split-cuts-credential|{fn.name}|{delim}')
+            continue
+        j = joins[0]
+        loop = [a for a in ancestors_of(j) if isinstance(a, ast.For)]
+        loop = loop[0] if loop else None
+        it = U(loop.iter) if loop is not None else ''
+        from_end = 'reversed(' in it
+        # which pieces go back: everything up to and including the piece found (slice [:pos] with pos counted from the front)
+        sl = [s_ for s_ in ast.walk(j) if isinstance(s_, ast.Subscript) and isinstance(s_.slice, ast.Slice) and s_.slice.lower is None and s_.slice.upper is not None]
+        guard = [U(t) for t, pol in q.guards_of(j, stop=loop)] if loop is not None else []
+        tested = any('.match(' in g for g in guard) and any((not pol) and '.match(' in U(t) for t, pol in q.guards_of(j, stop=loop))
+        if loop is None or not sl or not tested:
+            rr.unresolved(f'{fn.name}: the re-attachment step has an unrecognised shape', mod, j, witness=U(j)[:120], key=f'split-cuts-credential|{fn.name}|{delim}')
+        elif from_end:
+            upper = U(sl[0].slice.upper)
+            ok = 'len(' in upper and '-' in upper or any(isinstance(n, ast.NamedExpr) and 'len(' in U(n.value) and '-' in U(n.value) for n in ast.walk(sl[0].slice.upper))
+            rr.ob(f"{fn.name}: everything up to the LAST piece that cannot be an option is put back onto the address (scan from the end), so a password may contain any number of {delim!r}", ok, mod, j,
+                  witness=f'for ... in {it}: {U(j)[:100]}', key=f'split-cuts-credential|{fn.name}|{delim}')
+        else:
+            rr.violated(f"{fn.name}: the scan for pieces that belong to the address runs from the front and stops at the FIRST piece that cannot be an option: a password with two or more {delim!r} is still cut inside",
+                        mod, j, witness=f'for ... in {it}', key=f'split-cuts-credential|{fn.name}|{delim}')
